@@ -303,6 +303,7 @@ def run(ctx, rep, r1="R10.1", r2="R10.2", only_transform=False):
     rep.rule("R10.4", "regrouping linear constraints does not lose rows: the inequality and equality blocks of LinearConstraints are built under independent guards (see C17 R17.1)")
     from . import c17
     c17.r171(ctx, Renamed(rep, to="R10.4"))
+    c17.r172(ctx, Renamed(rep, to="R10.4"))
     # ---- R10.2 -----------------------------------------------------------------
     from .c08 import r84
     r84(ctx, rep, rule=r2)
